@@ -1453,6 +1453,49 @@ def merge_side_list(fi: FunctionInfo) -> int:
     return count
 
 
+def fields_read_through_locals(fi: FunctionInfo) -> int:
+    """`n = self.a` (bound once, at the top level of the function, `self.a` never stored in it, no
+    method of self called after it) read as `self.a` wherever n is read (in place)."""
+    count = 0
+    body = fi.node.body
+    own = list(own_nodes_incl_lambda(fi.node))
+    for a in list(body):
+        if not (isinstance(a, ast.Assign) and len(a.targets) == 1 and isinstance(a.targets[0], ast.Name) and isinstance(a.value, ast.Attribute) and isinstance(a.value.value, ast.Name) and a.value.value.id == "self"):
+            continue
+        n, attr = a.targets[0].id, a.value.attr
+        if n in fi.named_params:
+            continue
+        if sum(1 for x in own if isinstance(x, ast.Name) and x.id == n and isinstance(x.ctx, (ast.Store, ast.Del))) != 1:
+            continue
+        if any(isinstance(x, ast.Attribute) and x.attr == attr and isinstance(x.ctx, (ast.Store, ast.Del)) and isinstance(x.value, ast.Name) and x.value.id == "self" for x in own):
+            continue
+        if any(isinstance(x, ast.Call) and isinstance(x.func, ast.Attribute) and isinstance(x.func.value, ast.Name) and x.func.value.id == "self" and getattr(x, "lineno", 0) >= a.lineno for x in own):
+            continue
+        if any(isinstance(x, ast.Call) and src_of(x.func) in ("setattr", "delattr") for x in own):
+            continue
+        for x in own:
+            if isinstance(x, ast.Name) and x.id == n and isinstance(x.ctx, ast.Load):
+                par = getattr(x, "_parent", None)
+                new = ast.copy_location(ast.Attribute(value=ast.Name(id="self", ctx=ast.Load()), attr=attr, ctx=ast.Load()), x)
+                ast.fix_missing_locations(new)
+                if par is None:
+                    continue
+                for fld, val in ast.iter_fields(par):
+                    if val is x:
+                        setattr(par, fld, new)
+                    elif isinstance(val, list):
+                        for i_, y in enumerate(val):
+                            if y is x:
+                                val[i_] = new
+                new._parent = par  # type: ignore[attr-defined]
+                new.value._parent = new  # type: ignore[attr-defined]
+        body.remove(a)
+        count += 1
+    if count:
+        drop_caches(fi)
+    return count
+
+
 def drop_caches(fi: FunctionInfo) -> None:
     """forget what was computed about a function whose tree was just rewritten by a local
     normal form (reaching definitions, path conditions)"""
